@@ -2,7 +2,7 @@
     Only statements about the object-store model (Model/H5.v), each closed by a lemma of
     Proofs/H5Proofs.v.  [world_le w w'] = every object of both files is still there with the
     same attributes/payload and every link it had (links and objects were only added). *)
-From Cooler Require Import Model.H5 Proofs.H5Proofs.
+From Cooler Require Import Model.H5 Proofs.H5Proofs Proofs.ScoolProofs.
 
 (** path resolution is monotone: adding links/objects never changes what an already resolving
     path denotes (aliasing through hard, soft and external links included) *)
@@ -33,6 +33,78 @@ Theorem C15_ln_same_object : forall w f sp dp w',
   exists fo o, resolve w f sp = Found fo o /\ resolves w' f dp fo o /\ world_le w w'.
 Proof. exact ln_spec. Qed.
 Print Assumptions C15_ln_same_object.
+
+(** cp onto a non-root destination of an existing file: the destination resolves to a NEW object that dumps
+    - structure, attributes, payloads, link values, sharing pattern - exactly as the source object did
+    ([shift_entry k] only renames object ids by +k), and nothing else changed *)
+Theorem C15_cp_reads_as_source : forall w sf sp df dp w',
+  file_exists w df = true -> (sf = df \/ dp <> []) ->
+  cp w sf sp df dp false = (Ok, w') ->
+  exists fs o k,
+    resolve w sf sp = Found fs o /\ resolves w' df dp df (o + k) /\
+    (forall d pre, dump d w' df (o + k) pre = map (shift_entry k) (dump d w fs o pre)) /\
+    world_le w w'.
+Proof. exact cp_spec. Qed.
+Print Assumptions C15_cp_reads_as_source.
+
+(** recognition is total: never an error ... *)
+Theorem C15_is_cooler_never_raises : forall w f p e, is_cooler w f p <> TRaise e.
+Proof. exact is_cooler_never_raises. Qed.
+Print Assumptions C15_is_cooler_never_raises.
+
+(** ... true exactly on member paths that resolve to an object tagged as a cooler ... *)
+Theorem C15_is_cooler_true_iff : forall w f p,
+  is_cooler w f p = TTrue <->
+  file_exists w f = true /\ contains w f p = TTrue /\
+  exists f1 o x, resolve w f p = Found f1 o /\ obj_at w f1 o = Some x /\ is_cooler_obj x = true.
+Proof. exact is_cooler_true_iff. Qed.
+Print Assumptions C15_is_cooler_true_iff.
+
+(** ... and false for a path that is not a member path (D5) or does not resolve (D25) *)
+Theorem C15_is_cooler_false_elsewhere : forall w f p,
+  (contains w f p <> TTrue \/ (forall f1 o, resolve w f p <> Found f1 o)) -> is_cooler w f p = TFalse.
+Proof. exact is_cooler_false_elsewhere. Qed.
+Print Assumptions C15_is_cooler_false_elsewhere.
+
+(** listing, partial correctness: whenever list_coolers returns at all, it lists exactly the objects
+    reachable through group members ([reach]: each member opened on its own, named as h5py names it)
+    that are tagged as coolers, plus "/" when the root is one *)
+Theorem C15_listing_exact_when_it_returns : forall w f L, list_coolers w f = (Ok, L) ->
+  forall p, In p L <->
+    (p = [] /\ is_cooler_at w f 0 = true) \/
+    (exists f2 o2, reach w f 0 [] p f2 o2 /\ is_cooler_at w f2 o2 = true).
+Proof. exact listing_exact_reach. Qed.
+Print Assumptions C15_listing_exact_when_it_returns.
+
+(** listing_exact: in a file without external links, if the listing returns (no link cycle, no dangling
+    member) it is exactly the set of paths that resolve - by the file's own path resolution, with any
+    budget - to an object tagged as a cooler *)
+Theorem C15_listing_exact : forall w f L, no_ext w f -> nodup_keys w f -> list_coolers w f = (Ok, L) ->
+  forall p, In p L <-> exists o2, resolves w f p f o2 /\ is_cooler_at w f o2 = true.
+Proof. exact listing_exact. Qed.
+Print Assumptions C15_listing_exact.
+
+Theorem C15_wellformed_check_sound : forall w f, file_wf_b w f = true -> no_ext w f /\ nodup_keys w f.
+Proof. exact file_wf_b_sound. Qed.
+Print Assumptions C15_wellformed_check_sound.
+
+(** append-create at a path whose last name is free keeps every link and every dataset of both files *)
+Theorem C15_create_append_frame : forall w f p spec w1 tgt e w',
+  file_exists w f = true -> create_group w f p = (Ok, w1, tgt) ->
+  create w f p false spec = (e, w') -> keeps w w'.
+Proof. exact create_append_frame. Qed.
+Print Assumptions C15_create_append_frame.
+
+(** write mode replaces the file: the result does not depend on what the file held *)
+Theorem C15_create_w_replaces : forall w f p spec,
+  create w f p true spec = create (set_store w f None) f p true spec.
+Proof. exact create_w_replaces. Qed.
+Print Assumptions C15_create_w_replaces.
+
+(** f::g and f::/g denote the same group path *)
+Theorem C15_uri_slash : forall g, path_of_string (uri_group g) = path_of_string g.
+Proof. exact uri_slash. Qed.
+Print Assumptions C15_uri_slash.
 
 (** ---- the full statements that are FALSE of the faithful model (known findings), with witnesses *)
 
@@ -97,3 +169,9 @@ Example ex_C15_ln :
   let r := ln w FA sx FA ["z"%string] false false in
   fst r = Ok /\ resolve (snd r) FA ["z"%string] = resolve w FA sx /\ resolve w FA sx = Found FA 1%nat.
 Proof. exact ex_ln_ok. Qed.
+
+(** non-vacuity of C15_listing_exact: a well-formed file (collection, soft link to it, nested collection) *)
+Example ex_C15_listing :
+  file_wf_b w_listed FA = true /\
+  list_coolers w_listed FA = (Ok, [sx; sxy; ["y"%string]; ["y"; "y"]%string]).
+Proof. exact ex_listing_exact. Qed.
